@@ -127,7 +127,11 @@ def split_run(job, r, env, t0):
     ids = re.findall(r'^Property ([\w.$-]+):', p.stdout.decode(errors='replace'), re.M)
     if not ids:
         r.seconds = time.time() - t0
-        r.reason = 'timeout after %ds (and no property list for the per-obligation fallback)' % job.timeout
+        o = p.stdout.decode(errors='replace')
+        if p.returncode not in (0, 10) and ('ERROR' in o or 'rror' in o):
+            r.reason = 'cbmc exit %d: %s' % (p.returncode, ' | '.join(o.strip().split('\n')[-3:]))
+        else:
+            r.reason = 'timeout after %ds (and no property list for the per-obligation fallback)' % job.timeout
         return r
     per = job.timeout if getattr(job, 'split_first', False) else max(job.timeout, 150)
 
